@@ -17,8 +17,9 @@ type Outcome struct {
 
 // Limits bound an exploration. They decide how much is explored, never the verdict.
 type Limits struct {
-	MaxLeaves int // executions
-	MaxDraws  int // draws per execution; deeper paths count as unresolved mass
+	MaxLeaves int   // executions
+	MaxDraws  int   // draws per execution; deeper paths count as unresolved mass
+	MaxWork   int64 // draws over all executions (0: no limit); what is left when it is spent counts as unresolved
 	// Hostile: the source behaves like any io.Reader and like a source that fails now and then. Every third
 	// leaf is delivered in chunks of 1-3 bytes, and before every fifth leaf an auxiliary execution with the
 	// same script is aborted by a failing read (the caller recovers the panic). Neither may change any leaf.
@@ -51,7 +52,7 @@ func Run(lim Limits, run func(t *tape.Tape) Outcome) *Result {
 	lastReads := 0
 	var lastScript []uint32
 	for {
-		if lim.MaxLeaves > 0 && res.Leaves+res.Cuts >= lim.MaxLeaves {
+		if (lim.MaxLeaves > 0 && res.Leaves+res.Cuts >= lim.MaxLeaves) || (lim.MaxWork > 0 && res.Draws >= lim.MaxWork) {
 			// everything not yet visited is unresolved
 			rest := new(big.Rat).Sub(one, resolved)
 			rest.Sub(rest, res.Unresolved)
